@@ -75,20 +75,18 @@ theorem block_silent_v2 (s : KV2) (cur' : List KeyCode) (ost : Override.Override
     MayBlockV2 (afterQuietTickV2 s cur' ost) cur' ost := by
   obtain ⟨hk, hr⟩ := h
   obtain ⟨_, ho, hst, hm⟩ := C07.block_silent s.k cur' ost hk
-  obtain ⟨i1, i2, i3, i4, i5, i6, i7, i8, i9, i10, i11, i12, i13, i14, i15, i16⟩ := C07.idle_covers_time_driven s.k hk.idle
+  obtain ⟨i1, i2, i3, i4, i5, i6, i7, i8, i9, i10, i11, i12, i13, i14, i15, i16, i17⟩ := C07.idle_covers_time_driven s.k hk.idle
   have hq : C07.QuietLayout s.k.layout := ⟨i1, i2, i3, i5, i6, i7, i8, i9, hk.plain⟩
-  obtain ⟨l', ht, _, _, hkc⟩ := C07.handleKeystateChanges_quiet s.k hq i15 hk.curEmpty cur' ost hk.wanted hk.noErase hk.synced
-  have hl' : l' = tickPre s.k.layout := by
-    have := C07.tick_quiet_eq s.k.layout hq
-    rw [ht] at this; injection this with this; injection this
-  subst hl'
   let k1 : KState := { s.k with layout := tickPre s.k.layout, overrideStates := ost, curKeys := cur' }
+  -- [seq] whatever the sequence configuration: with the key lists in sync no sequence hook runs
   have e1 : handleKeystateChangesV2 s = .ok { k := k1, chv2 := restTickO s.chv2 s.k.layout.currentLayer } :=
-    handleKeystateChangesV2_restO s.k s.chv2 hr _ ht k1 hkc
+    handleKeystateChangesV2_quiet s hr hq i15 hk.curEmpty cur' ost hk.wanted hk.noErase hk.synced
   have e2 : tickMid k1 = .ok k1 := by
     unfold tickMid
     rw [C07.handleScrolling_none k1 i10 i11]
-    exact C07.handleMoveMouse_none k1 i12 i13
+    simp only []
+    rw [C07.handleMoveMouse_none k1 i12 i13]
+    exact tickSequenceState_inactive k1 i17
   have e3 : tickIdleTimeoutV2 { k := k1, chv2 := restTickO s.chv2 s.k.layout.currentLayer }
       = .ok { k := k1, chv2 := restTickO s.chv2 s.k.layout.currentLayer } :=
     tickIdleTimeoutV2_nil _ hk.noWait
